@@ -64,7 +64,8 @@ def gen(ctx):
                 entries[rot(key)] = rng.randrange(k)
         items = [list(key) + [v] for key, v in entries.items()]
         rotf = int(rng.random() < 0.6)
-        yield dict(kind="table", entries=items, rot=rotf)
+        half = int(rng.random() < 0.3)     # states are multiples of 1/2 (an excitable medium over 0, 0.5, 1, ...): the model sees 2x
+        yield dict(kind="table", entries=items, rot=rotf, half=half)
         for _ in range(3):
             n = [[rng.randrange(k) for _ in range(3)] for _ in range(3)]
             if rng.random() < 0.5 and items:
@@ -73,7 +74,7 @@ def gen(ctx):
                 for _ in range(rng.randrange(4)):
                     kk = rot(kk)
                 n[1][1], n[0][1], n[1][2], n[2][1], n[1][0] = kk
-            yield dict(kind="lookup", entries=items, rot=rotf, n=n)
+            yield dict(kind="lookup", entries=items, rot=rotf, n=n, half=half)
 
 
 def line(c):
@@ -128,13 +129,15 @@ def impl(c):
             return "ok " + ",".join(batch(c))
         if c["kind"] == "call":
             return "ok " + call_loop(loop_obj(c["loop"]), c["key"])
-        table = {tuple(e[:5]): e[5] for e in c["entries"]}
+        sc = 0.5 if c.get("half") else 1
+        table = {tuple(x * sc for x in e[:5]): e[5] for e in c["entries"]}
         rule = cpl.CTRBLRule(table, add_rotations=bool(c["rot"]))
         if c["kind"] == "table":
-            items = sorted(list(k) + [v] for k, v in rule.rule_table.items())
+            items = sorted([int(round(x / sc)) for x in k] + [v] for k, v in rule.rule_table.items())
             return "ok " + fmt.mat(items)
         try:
-            return "ok %d" % int(rule(np.array(c["n"]), (1, 1), 1))
+            n = np.array(c["n"]) * sc if c.get("half") else np.array(c["n"])
+            return "ok %d" % int(rule(n, (1, 1), 1))
         except ValueError:
             return "ok E"
     except Exception as e:  # noqa
@@ -217,7 +220,8 @@ def oracle(c):
             vs.add(call_loop(obj, k))
             k = rot(k)
         return None if len(vs) == 1 else "%s not orientation independent on %s: %s" % (c["loop"], c["key"], sorted(vs))
-    table = {tuple(e[:5]): e[5] for e in c["entries"]}
+    sc = 0.5 if c.get("half") else 1
+    table = {tuple(x * sc for x in e[:5]): e[5] for e in c["entries"]}
     rule = cpl.CTRBLRule(table, add_rotations=bool(c["rot"]))
     rt = rule.rule_table
     consistent = True
@@ -242,7 +246,7 @@ def oracle(c):
         if rt != table:
             return "without add_rotations the table is not the input"
     if c["kind"] == "lookup":
-        n = c["n"]
+        n = [[x * sc for x in row] for row in c["n"]]
         key = (n[1][1], n[0][1], n[1][2], n[2][1], n[1][0])
         try:
             got = rule(np.array(n), (1, 1), 1)
